@@ -11,37 +11,9 @@ use std::cmp::Ordering;
 use std::convert::TryFrom;
 use twofloat::TwoFloat;
 
-/// Non-finite / NaN-carrying values obtained by actually calling the public API.
+/// Non-finite / NaN-carrying values obtained by actually calling the public API (words only).
 pub fn nonfinite_pool() -> Vec<(&'static str, Dd)> {
-    let inf = f64::INFINITY;
-    let v: Vec<(&'static str, TwoFloat)> = vec![
-        ("NAN", TwoFloat::NAN),
-        ("INFINITY", TwoFloat::INFINITY),
-        ("NEG_INFINITY", TwoFloat::NEG_INFINITY),
-        ("new_add(inf,1)", TwoFloat::new_add(inf, 1.0)),
-        ("new_add(-inf,1)", TwoFloat::new_add(-inf, 1.0)),
-        ("new_sub(1,inf)", TwoFloat::new_sub(1.0, inf)),
-        ("new_mul(1e300,1e300)", TwoFloat::new_mul(1e300, 1e300)),
-        ("new_mul(-1e300,1e300)", TwoFloat::new_mul(-1e300, 1e300)),
-        ("new_div(1,0)", TwoFloat::new_div(1.0, 0.0)),
-        ("new_div(0,0)", TwoFloat::new_div(0.0, 0.0)),
-        ("from(NaN)", TwoFloat::from(f64::NAN)),
-        ("from(inf)", TwoFloat::from(inf)),
-        ("from(-inf)", TwoFloat::from(-inf)),
-        ("exp(1000)", TwoFloat::from(1000.0).exp()),
-        ("exp2(2000)", TwoFloat::from(2000.0).exp2()),
-        ("sqrt(-1)", TwoFloat::from(-1.0).sqrt()),
-        ("ln(0)", TwoFloat::from(0.0).ln()),
-        ("1/0", 1.0 / TwoFloat::from(0.0)),
-        ("0/0", TwoFloat::from(0.0) / TwoFloat::from(0.0)),
-        ("MAX+MAX", TwoFloat::MAX + TwoFloat::MAX),
-        ("MAX*2", TwoFloat::MAX * 2.0),
-        ("MIN*MAX", TwoFloat::MIN * TwoFloat::MAX),
-        ("-NAN", -TwoFloat::NAN),
-        ("INFINITY-INFINITY", TwoFloat::INFINITY - TwoFloat::INFINITY),
-        ("asin(2)", TwoFloat::from(2.0).asin()),
-    ];
-    v.into_iter().map(|(n, t)| (n, Dd::of(t))).collect()
+    nonfinite_pool_objects().iter().map(|(n, t)| (*n, Dd::of(*t))).collect()
 }
 
 fn has_nan(d: Dd) -> bool {
@@ -314,7 +286,7 @@ fn c07_check_pair(ctx: &mut Ctx, a: f64, b: f64) {
         return;
     };
     check!(ctx, got == want, "no_overlap({}, {}) = {} but a finite && RN(a+b)==a is {}", showf(a), showf(b), got, want);
-    let raw = twofloat::verif_hooks::raw(a, b);
+    let raw = tf_hooked::verif_hooks::raw(a, b);
     let want_valid = a.is_finite() && b.is_finite() && want;
     check!(ctx, raw.is_valid() == want_valid, "is_valid() of ({}, {}) = {} expected {}", showf(a), showf(b), raw.is_valid(), want_valid);
     let t1 = TwoFloat::try_from((a, b));
@@ -531,7 +503,7 @@ fn c12_table(ctx: &mut Ctx) {
             check!(ctx, max.hi == f64::MAX, "MAX.hi = {}", showf(max.hi));
             // the largest: the next low word up is no longer a valid pair
             let up = Dd::new(max.hi, next_up(max.lo));
-            check!(ctx, !up.valid() && !up.tf().is_valid(), "(f64::MAX, succ(MAX.lo)) = {} is still valid: MAX is not the largest", up.show());
+            check!(ctx, !up.valid() && !up.tfh().is_valid() && TwoFloat::try_from((up.hi, up.lo)).is_err(), "(f64::MAX, succ(MAX.lo)) = {} is still valid: MAX is not the largest", up.show());
             let dn = Dd::new(max.hi, next_down(max.lo));
             check!(ctx, dn.valid(), "(f64::MAX, pred(MAX.lo)) should be valid");
             check!(ctx, same_dd(Dd::of(<TwoFloat as Bounded>::max_value()), max) && same_dd(Dd::of(<TwoFloat as FloatCore>::max_value()), max) && same_dd(Dd::of(<TwoFloat as num_traits::Float>::max_value()), max), "max_value() accessors differ from MAX");
@@ -541,7 +513,7 @@ fn c12_table(ctx: &mut Ctx) {
             check!(ctx, TwoFloat::MIN.is_valid() && min.valid(), "MIN = {} is not valid", min.show());
             check!(ctx, same_dd(min, max.neg()), "MIN = {} is not -MAX", min.show());
             let dn = Dd::new(min.hi, next_down(min.lo));
-            check!(ctx, !dn.valid() && !dn.tf().is_valid(), "(f64::MIN, pred(MIN.lo)) is still valid: MIN is not the smallest");
+            check!(ctx, !dn.valid() && !dn.tfh().is_valid() && TwoFloat::try_from((dn.hi, dn.lo)).is_err(), "(f64::MIN, pred(MIN.lo)) is still valid: MIN is not the smallest");
             check!(ctx, same_dd(Dd::of(<TwoFloat as Bounded>::min_value()), min) && same_dd(Dd::of(<TwoFloat as FloatCore>::min_value()), min) && same_dd(Dd::of(<TwoFloat as num_traits::Float>::min_value()), min), "min_value() accessors differ from MIN");
         }
         2 => {
@@ -596,7 +568,10 @@ fn c12_bounds(ctx: &mut Ctx) {
 }
 
 fn c12_angle(ctx: &mut Ctx) {
-    let x = dd_exp(ctx, -450, 449, true);
+    let x = match maybe_constant(ctx, 30, false) {
+        Some(c) => c,
+        None => dd_closed(ctx, -450, 450, true),
+    };
     let deg = ctx.flag();
     x.key(ctx);
     ctx.key_u64(deg as u64);
@@ -604,6 +579,7 @@ fn c12_angle(ctx: &mut Ctx) {
     let name = if deg { "to_degrees" } else { "to_radians" };
     let Some(r) = run_tf(ctx, name, || if deg { x.tf().to_degrees() } else { x.tf().to_radians() }) else { return };
     note_dd(ctx, "result", r);
+    crate::p_forms::routes_agree(ctx, name, x, r);
     if !check_valid(ctx, name, r) {
         return;
     }
